@@ -7,6 +7,7 @@ from typing import Dict, List, Iterable, Tuple, Deque
 
 from conductor.context import Context
 from conductor.errors import ConductorError, ConductorAbort
+from conductor.errors.signal import defer_abort
 from conductor.execution.handle import OperationExecutionHandle
 from conductor.execution.ops.operation import Operation
 from conductor.execution.plan import ExecutionPlan
@@ -256,9 +257,13 @@ class Executor:
                         if self._running_parallel and self._slots > 1
                         else None
                     )
-                    handle = next_op.start_execution(ctx, slot)
-                    handle.slot = slot
-                    self._inflight_ops.add_op(handle, next_op)
+                    # An abort that arrives while the operation is being
+                    # launched is raised only once the operation is tracked
+                    # in `_inflight_ops` (so that its process gets terminated).
+                    with defer_abort():
+                        handle = next_op.start_execution(ctx, slot)
+                        handle.slot = slot
+                        self._inflight_ops.add_op(handle, next_op)
                     if slot is not None:
                         self._available_slots.pop()
                 except ConductorAbort:
